@@ -1,4 +1,4 @@
-From V Require Import Common.Base Common.Utf8 C07.LineCol C07.Builder C07.Vlq C07.SpecMap C07.Mappings C07.MappingsProofs C07.FindProofs C07.JoinProofs.
+From V Require Import Common.Base Common.Utf8 C07.LineCol C07.Builder C07.Vlq C07.SpecMap C07.Mappings C07.MappingsProofs C07.FindProofs C07.JoinProofs C07.SpecBuilder C07.LineColProofs.
 (* non-vacuity / sanity: concrete values *)
 Example enc_ex : map encodeVLQ [0; 1; -1; 15; 16; -16; 123456] =
   [[65]; [67]; [68]; [101]; [103; 66]; [104; 66]; [103; 107; 120; 72]].
@@ -27,3 +27,18 @@ Example builder_ex :
               [(0, 0, []); (3, 1, [120; 32]); (5, 0, [121; 10; 32; 32]); (6, 2, [122])] = Some b
             /\ b_map b = [65;65;65;65; 44; 69;65;65;69;65; 59; 65;65;65;65; 44; 69;65;67;70; 44; 67;65;65;67;67].
 Proof. eexists. vm_compute. split; reflexivity. Qed.
+(* builder_mappings_exact: the hypothesis holds for these calls (all locs are
+   character boundaries of "a é b LF c d") and the specified mappings are non-trivial:
+   a cover mapping at column 0 of generated line 1 precedes the mapping at column 2 *)
+Example builder_exact_ex :
+  let text := [97; 195; 169; 98; 10; 99; 100] in
+  let evs := [(0, 0, []); (3, 1, [120; 32]); (3, 1, [33]); (5, 0, [121; 10; 32; 32]); (6, 2, [122])] in
+  Forall (fun e => boundary text (fst (fst e))) evs /\
+  abs_of (builder_spec_ops text true evs [10; 10; 119]) 0 =
+    [mkAbs 0 0 (Some (0, 0, 0)) None; mkAbs 0 2 (Some (0, 0, 2)) (Some 0);
+     mkAbs 1 0 (Some (0, 0, 2)) None; mkAbs 1 2 (Some (0, 1, 0)) None; mkAbs 1 3 (Some (0, 1, 1)) (Some 1);
+     mkAbs 2 0 (Some (0, 1, 1)) None].
+Proof.
+  split; [|vm_compute; reflexivity].
+  repeat (apply Forall_cons; [right; vm_compute; auto 10|]). apply Forall_nil.
+Qed.
